@@ -133,6 +133,31 @@ def run_case(case, ctx, mon):
     boundary = False
     touched = {}
     for n_op, op in enumerate(case["ops"]):
+        if op[0] == "ulist_bad":
+            # an interrupted batch call: the sketch must be left as the loop of single adds would leave it when it hits the
+            # same unacceptable item (everything before it applied), or untouched
+            before = full_state(L, kind)
+            if is_log:
+                state.numba_seed(seed + n_op)
+            exc = ops.apply_failing(L, op)
+            mon.check(exc is not None, "update-with-an-unacceptable-item-raises", op=op, kind=kind)
+            if is_log:
+                state.numba_seed(seed + n_op)
+            Rb = full_state(R, kind)
+            for k, _v in ops.effects(op):
+                R.add(k)
+            d = state.snap_diff(full_state(L, kind), full_state(R, kind))
+            if d and not state.snap_diff(full_state(L, kind), before):
+                # nothing applied: bring R back to where it was
+                for a_name in state.ARRAYS[kind]:
+                    getattr(R, a_name)[...] = Rb[a_name]
+                if is_log:
+                    R.rand_nums[:] = Rb["rand_nums"]
+                    R.rand_ptr = int(Rb["rand_ptr"][0])
+                d = []
+            mon.check(not d, "interrupted-update(list)==interrupted-loop-of-adds", kind=kind, op=op, n_op=n_op, differs_in=d, cfg=cfg)
+            mon.count(f"pairs:{kind}:ulist_bad")
+            continue
         prims = expand(op, kind)
         if is_log:
             state.numba_seed(seed + n_op)
